@@ -148,6 +148,56 @@ KEYWORD_CLASSES = {
 }
 
 
+# ----- special tokens of each vendor's syntax, collected from the formatter classes (policy terminators the split filters,
+# block exit words, keywords that open specially closed blocks, comment / annotation / block marks).  A row of the domain may
+# CONTAIN, START WITH or END WITH such a token inside a longer ordinary word or as one word of a longer row: it is then an
+# ordinary row (only the bare token line is syntax) and has to survive the round trip - as a leaf and as a block header.
+_MARKS = ["#", "!"]                                     # parse_to_tree's comment marks: a row may not START with them
+TOKENS = {
+    "huawei": ["end-list", "endif", "end-filter", "quit", "return", "xpl"] + _MARKS,
+    "h3c": ["end-list", "endif", "end-filter", "quit", "return", "xpl"] + _MARKS,
+    "iosxr": ["end-set", "endif", "end-policy", "exit", "route-policy"] + _MARKS,
+    "cisco": ["exit", "exit-address-family", "address-family"] + _MARKS,
+    "arista": ["exit"] + _MARKS, "aruba": ["exit"] + _MARKS, "b4com": ["exit"] + _MARKS, "nexus": ["exit"] + _MARKS,
+    "optixtrans": ["quit"] + _MARKS, "pc": ["exit"] + _MARKS,
+    "juniper": ["{", "}", ";", "##", "/*", "*/", "exit", "#"],
+    "ribbon": ["{", "}", ";", "##", "/*", "*/", "exit", "#"],
+    "nokia": ["{", "}", ";", "##", "/*", "*/", "configure", "#"],
+    "routeros": ["/", "#"],
+}
+TOKEN_NAMES = {"#": "hash", "!": "bang", "{": "lbrace", "}": "rbrace", ";": "semicolon", "##": "hash2", "/*": "annot-open",
+               "*/": "annot-close", "/": "slash"}
+FORMS = ("contains", "starts", "ends")
+
+
+def token_forms(vendor, token):
+    """the positions in which the token may sit in a row of the vendor's domain"""
+    if token in _MARKS or token in ("##", "/*", "/"):
+        return ("contains", "ends")          # a row that starts with a comment / annotation / path mark IS that syntax
+    if token in ("{", "}", ";"):
+        return ("contains",)                 # at the end of a line they are the brace syntax itself
+    if token == "*/":
+        return ("contains", "starts", "ends")
+    return FORMS
+
+
+def token_row(token, form, i, glued):
+    """a row with the token inside a longer word (glued) or as one word of a longer row; i keeps sibling rows distinct"""
+    if form == "ends":
+        return ("description%d link-to-back%s" if glued else "service-policy%d front %s") % (i, token)
+    if form == "starts":
+        return ("%s-x%d v" if glued else "%s now%d") % (token, i)
+    return ("a%sb%d c" if glued else "set%d %s value") % ((token, i) if glued else (i, token))
+
+
+def token_schemes(vendor):
+    out = []
+    for t, token in enumerate(TOKENS[vendor]):
+        for form in token_forms(vendor, token):
+            out += ["T:%s:%d:%d" % (form, t, o) for o in range(3)]
+    return out
+
+
 def schemes(vendor):
     out = ["A0", "A5", "B"]
     for cls in KEYWORD_CLASSES.get(vendor, ()):
@@ -158,6 +208,10 @@ def schemes(vendor):
 def label(shape, vendor, scheme):
     """shape (forest of forests) -> list tree [[row, children], ...] of the vendor's domain"""
     counter = [0]
+    tform, ttoken, toff = None, None, None
+    if scheme.startswith("T:"):
+        _, tform, t, toff = scheme.split(":")
+        ttoken, toff = TOKENS[vendor][int(t)], int(toff)
     if vendor == "routeros":
         off = 5 if scheme == "A5" else 0
 
@@ -169,6 +223,8 @@ def label(shape, vendor, scheme):
                 n = j if scheme == "B" else i + off
                 if ch or d == 0:
                     row = _pick(ROS_SECTIONS, n).replace(" ", "")      # a section name is one word
+                elif tform is not None and i % 3 == toff:
+                    row = ("add comment%d=x%sy" if tform == "contains" else "set name%d=x%s") % (i, ttoken)
                 else:
                     row = _pick(ROS_LEAVES, n)
                 out.append([row, walk_ros(ch, d + 1)])
@@ -189,7 +245,12 @@ def label(shape, vendor, scheme):
         for j, ch in enumerate(forest):
             i = counter[0]
             counter[0] += 1
-            if kcls is not None and i % 3 == koff:
+            if tform is not None and i % 3 == toff:
+                # cisco: a whole-word `address-family ...` row opens a block that needs its exit row (keyword labelling), so
+                # only the glued form (`address-family-x2 v`) is an ordinary row here
+                row = token_row(ttoken, tform, i, glued=(i // 3) % 2 == 0 or (ttoken == "address-family" and tform == "starts"))
+                sub = walk(ch, d + 1)
+            elif kcls is not None and i % 3 == koff:
                 row = _keyword(vendor, kcls, i, j, d, bool(ch))
                 sub = walk(ch, d + 1)
                 if kcls == "address-family":
@@ -211,6 +272,10 @@ def tree_class(vendor, lst, scheme):
             return any(ch and (d >= 1 or nested(ch, d + 1)) for _, ch in l)
         if nested(lst, 0):
             return "nested-sections"
+    if scheme.startswith("T:"):
+        _, form, t, _o = scheme.split(":")
+        token = TOKENS[vendor][int(t)]
+        return "token-%s-%s" % (form, TOKEN_NAMES.get(token, token))
     return ""
 
 
@@ -285,6 +350,12 @@ def ref_render(lst, vendor, variant):
 
 
 # ===== the checks
+def _ends_with_annot_close(vendor, scheme):
+    if not scheme.startswith("T:ends:"):
+        return False
+    return TOKENS[vendor][int(scheme.split(":")[2])] == "*/"
+
+
 def check_case(vendor, lst, scheme="", checks=("roundtrip", "fixpoint", "device"), only_variant=None):
     """-> list of (check name[:device variant], ok, expected, actual)"""
     out = []
@@ -302,7 +373,9 @@ def check_case(vendor, lst, scheme="", checks=("roundtrip", "fixpoint", "device"
                 err = None
             except Exception as e:  # pylint: disable=broad-except
                 back, err = None, "%s: %s" % (type(e).__name__, e)
-            if "roundtrip" in checks and vendor in BRACES:
+            # (a row that ends with `*/` is written without ';' - the property says nothing about the ';', so the literal text
+            # comparison is not made for that labelling)
+            if "roundtrip" in checks and vendor in BRACES and not _ends_with_annot_close(vendor, scheme):
                 # braces, ';' and the 4-blank indentation are the vendor's syntax: the text itself is fixed by the tree
                 out.append(("join-text", text == ref_render(lst, vendor, "plain"), ref_render(lst, vendor, "plain"), text))
             if "roundtrip" in checks:
@@ -341,8 +414,8 @@ def check_case(vendor, lst, scheme="", checks=("roundtrip", "fixpoint", "device"
 
 def _bounds(tier):
     if tier == "quick":
-        return dict(depth=3, width=3, nodes=11, full3=0, nrandom=3000)
-    return dict(depth=5, width=3, nodes=11, full3=22, nrandom=60000)
+        return dict(depth=3, width=3, nodes=11, full3=0, nrandom=3000, tnodes=5)
+    return dict(depth=5, width=3, nodes=11, full3=22, nrandom=60000, tnodes=7)
 
 
 def in_domain(vendor, shape):
@@ -359,6 +432,15 @@ def cases(tier, seed):
                 continue
             for scheme in schemes(vendor):
                 yield vendor, scheme, shape, scheme in ("A0", "B")
+    # special tokens inside ordinary rows: every (token, position) of the vendor at every third node of every small shape
+    for shape, _size in forests(3, b["tnodes"], b["width"]):
+        if not shape:
+            continue
+        for vendor in VENDORS:
+            if not in_domain(vendor, shape):
+                continue
+            for scheme in token_schemes(vendor):
+                yield vendor, scheme, shape, False
     if b["full3"]:
         # shapes of depth <= 3 with <= 3 rows per level above the node cap, up to full3 nodes (all 621436 shapes up to 39 nodes
         # cost ~45 cpu minutes): all labellings up to the quick tier's cap (so that thorough covers quick), one labelling beyond
@@ -380,7 +462,7 @@ def cases(tier, seed):
         vendor = VENDORS[n % len(VENDORS)]
         if not in_domain(vendor, shape):
             shape = tuple(t if t else ((),) for t in shape)     # RouterOS: give every top level section a row
-        sch = schemes(vendor)
+        sch = schemes(vendor) + token_schemes(vendor)
         yield vendor, sch[rnd.randrange(len(sch))], shape, True
 
 
@@ -398,7 +480,7 @@ def run(tier="quick", seed=0, part=0, nparts=1):
         lst = label(shape, vendor, scheme)
         if with_device is None:
             checks = ("roundtrip", "fixpoint", "lazy")
-        elif with_device and not scheme.startswith("K:"):
+        elif with_device and not scheme.startswith(("K:", "T:")):
             checks = ("roundtrip", "fixpoint", "device")
         else:
             checks = ("roundtrip", "fixpoint")
@@ -421,14 +503,16 @@ def run(tier="quick", seed=0, part=0, nparts=1):
                 rule="for each of the 14 registry vendors: every ordered tree shape of depth <= %d, <= %d rows per level and <= %d "
                      "nodes%s, labelled from the vendor's safe alphabet in 3 ways (distinct rows, rotated, same rows in every "
                      "block) plus vendor keyword rows at every third node (cisco address-family blocks closed by their exit-address-family row, "
-                     "huawei/h3c xpl, iosxr route-policy; RouterOS: section words for inner nodes, command rows for leaves, no childless top level row); "
+                     "huawei/h3c xpl, iosxr route-policy; on every shape of <= %d nodes: every special token of the vendor's syntax "
+                     "(policy terminators, exit words, keywords, comment/annotation/block marks) inside a longer word or as one "
+                     "word of a longer row, at the start / middle / end of rows at every third node; RouterOS: section words for inner nodes, command rows for leaves, no childless top level row); "
                      "plus %d seeded random trees (depth <= 6, <= 5 rows per level, <= 40 nodes); each case: join->parse "
                      "round trip, join fixed point, and (for the plain labellings) 1-2 device style texts written by a reference "
                      "renderer (plain, separator lines, configure{} wrapper, /path sections); non-trivial = nesting depth >= 2; distinct by (vendor, tree)"
                      % (b["depth"], b["width"], b["nodes"],
                         (" and every shape of depth <= 3 / <= 3 rows per level up to %d nodes (all labellings up to %d nodes, one "
                          "beyond, there the fixed point is evaluated only after a round trip mismatch)" % (b["full3"], _bounds("quick")["nodes"])) if b["full3"] else "",
-                        b["nrandom"]),
+                        b["tnodes"], b["nrandom"]),
                 bound="depth<=%d, <=%d rows/level, <=%d nodes%s; random to 40 nodes"
                       % (b["depth"], b["width"], b["nodes"], ("; depth<=3 to %d nodes" % b["full3"]) if b["full3"] else ""))
 
